@@ -48,6 +48,20 @@ PATH_NAMESPACES = {'p': 'urn:p', 'q': 'urn:q'}
 
 ELEM_LOCALS = ('a', 'b', 'c')
 ATTR_LOCALS = ('x', 'y', 'id')
+# NCNames that start with (or are) an XPath reserved word, operator, axis, kind-test or function name: <kw>, <kw>.x, <kw>-x,
+# <kw>1, <kw>_x.  Opt-in pools (C14): KEYWORD_NAMES for element/attribute local names and PI targets, kw_prefixes for prefixes.
+XPATH_WORDS = ('for', 'if', 'is', 'to', 'return', 'div', 'mod', 'idiv', 'and', 'or', 'let', 'some', 'every', 'in', 'satisfies', 'then',
+               'else', 'instance', 'of', 'cast', 'castable', 'treat', 'as', 'union', 'intersect', 'except', 'eq', 'ne', 'lt', 'le', 'gt',
+               'ge', 'child', 'descendant', 'attribute', 'self', 'parent', 'ancestor', 'following', 'preceding', 'namespace',
+               'text', 'node', 'comment', 'element', 'item', 'document-node', 'processing-instruction', 'count', 'last', 'position',
+               'not', 'true', 'map', 'array', 'function')
+KEYWORD_NAMES = tuple(dict.fromkeys(
+    ['for.each', 'if.empty', 'is.valid', 'to.date', 'return.code', 'div.x', 'mod.1', 'and.or', 'let.x', 'some.x', 'every.x',
+     'instance.of', 'cast.as', 'union.x', 'eq.x'] + [w + sfx for w in XPATH_WORDS for sfx in ('.x', '-x', '', '1', '_x')]))
+KEYWORD_PREFIXES = ('for.each', 'if.x', 'div-x', 'eq.x', 'union', 'to1', 'is_x', 'child.x')
+for _i, _p in enumerate(KEYWORD_PREFIXES, 1):
+    PREFIX_URI[_p] = 'urn:kw%d' % _i
+    CANON_PREFIX['urn:kw%d' % _i] = _p
 TEXTS = (None, None, '', 't', ' ', '1', 'x y')
 PI_TARGETS = ('x', 'y', 'pi', 'xml-stylesheet')
 PI_TARGETS_FN = ('pi', 'exp', 'text', 'data', 'x', 'y', 'node', 'comment', 'div', 'if')
@@ -301,7 +315,8 @@ _DECLS_PP = _DECLS + (('r',), ('p', 'r'), ('r', 'q'))
 
 @st.composite
 def tree_specs(draw, max_elems=12, max_depth=4, max_attrs=3, ns=True, doc_misc=True,
-               pi_targets=PI_TARGETS, misc_weight=3, elem_locals=ELEM_LOCALS, min_elems=1, prefix_uris=False, num_uris=False):
+               pi_targets=PI_TARGETS, misc_weight=3, elem_locals=ELEM_LOCALS, min_elems=1, prefix_uris=False, num_uris=False, attr_locals=ATTR_LOCALS,
+               kw_prefixes=False):
     """Normalised TreeSpec.  Small name pools on purpose (nested/sibling same names are the norm)."""
     budget = [draw(st.integers(min(min_elems, max_elems), max_elems)) - 1]
     misc = _misc(pi_targets)
@@ -313,7 +328,12 @@ def tree_specs(draw, max_elems=12, max_depth=4, max_attrs=3, ns=True, doc_misc=T
         elem_ns = st.one_of(elem_ns, elem_ns, st.sampled_from(NUM_URIS))
         attr_ns = st.one_of(attr_ns, attr_ns, attr_ns, st.sampled_from(NUM_URIS))
         decls = st.one_of(decls, decls, decls, st.sampled_from(['n%d' % i for i in range(1, len(NUM_URIS) + 1)]).map(lambda p: (p,)))
-    attr = st.tuples(attr_ns, st.sampled_from(ATTR_LOCALS), st.sampled_from(ATTR_VALUES)).map(list)
+    if ns and kw_prefixes:
+        kwu = st.sampled_from(['urn:kw%d' % i for i in range(1, len(KEYWORD_PREFIXES) + 1)])
+        elem_ns = st.one_of(elem_ns, elem_ns, elem_ns, kwu)
+        attr_ns = st.one_of(attr_ns, attr_ns, attr_ns, kwu)
+        decls = st.one_of(decls, decls, decls, st.sampled_from(KEYWORD_PREFIXES).map(lambda p: (p,)))
+    attr = st.tuples(attr_ns, st.sampled_from(attr_locals), st.sampled_from(ATTR_VALUES)).map(list)
 
     def elem(depth):
         e = {'k': 'e', 'ns': draw(elem_ns), 'n': draw(st.sampled_from(elem_locals)),
